@@ -7,7 +7,9 @@ package engine
 
 import (
 	"fmt"
+	"os"
 	"sort"
+	"strconv"
 	"strings"
 	"sync"
 	"testing"
@@ -82,6 +84,18 @@ type CCase struct {
 	LazyFiles bool     `json:"lazy_files,omitempty"` // leave loading of file components after a reopen to the first reader (racy inside a step)
 	NoGate    bool     `json:"no_gate,omitempty"`  // nothing parks: operations started together race natively (directed races inside one step)
 	Repeat    int      `json:"repeat,omitempty"` // run the case up to n times, stop at the first violation (races inside one step)
+	// lock-level yield points (absent in old replay files = off): task goroutines arriving at
+	// an instrumented Lock/RLock/Unlock/RUnlock/Ref/Unref statement park, and the scheduler
+	// decides who proceeds.  One arrival in LockNth parks (1 = every one; pure function of
+	// SchedSeed, class, site and the arrival's ordinal), only at sites whose name contains one
+	// of LockSites (empty = all) and only goroutines of the classes in LockCls (empty = all).
+	LockNth   int      `json:"lock_nth,omitempty"`
+	LockSites []string `json:"lock_sites,omitempty"`
+	LockCls   string   `json:"lock_cls,omitempty"`
+	// iteration order of the engine's maps that are ranged through verifyield.Sorted
+	// (measurement -> files, measurement -> memtable, ...): 0 = ascending keys, else a
+	// rotation/reversal of it (see verifyield.SetMapOrder)
+	MapOrder uint64 `json:"map_order,omitempty"`
 }
 
 type worldC struct{}
@@ -91,7 +105,7 @@ func (worldC) Components() ([]string, []string) {
 	return []string{"engine shard (WriteRows, ForceFlush, DropMeasurement, Close, WAL, memtable, snapshot)",
 			"engine/immutable (flush, TSSP files, reference counts, sequencer + asynchronous reload, level/full compaction, out-of-order merge, ReplaceFiles)",
 			"read path: CreateCursor (cloneReaders, GetBothFilesRef), cursors, ChunkReader", "engine/index/tsi + mergeset (not gated)",
-			"lib/fileops through simfs gates (mutations and reads of data/ and wal/)", "Go runtime scheduler inside one step (real goroutines, GOMAXPROCS>1)"},
+			"lib/fileops through simfs gates (mutations and reads of data/ and wal/)", "lock-level yield points (tools/yieldins: Lock/RLock/Unlock/RUnlock/Ref/Unref statements of the shard, memtable and immutable packages) under the seeded scheduler", "Go runtime scheduler between two yield points (real goroutines; GOMAXPROCS=1 without asynchronous preemption, 3 chaos workers at GOMAXPROCS=4)"},
 		[]string{"meta service (not needed at shard level)", "SQL layer (statements parsed by the real parser; reader ops hand-written as in the repo's own tests)", "network",
 			"timers: size/time triggered flush and the compaction worker are switched off; flush/compaction/merge are client operations"}
 }
@@ -99,10 +113,44 @@ func (worldC) Components() ([]string, []string) {
 // ---- generation ------------------------------------------------------------------
 
 func (w worldC) Gen(r *core.Rand, env *core.Env) CCase {
+	var c CCase
 	if r.Intn(5) == 0 {
-		return w.genReload(r, env)
+		c = w.genReload(r, env)
+	} else {
+		c = w.genMixed(r, env)
 	}
-	return w.genMixed(r, env)
+	cwDrawLockKnobs(r, &c) // drawn last: the rest of the case is what the seed gave before these knobs existed
+	return c
+}
+
+// cwLockSiteGroups: swarm-style focus of the lock-level yield points on one part of the code.
+var cwLockSiteGroups = [][]string{
+	nil, nil, nil, // every instrumented site
+	{"mms_tables.go", "ts_mms_tables.go"},
+	{"engine/shard.go", "ts_storage.go", "iterators.go", "engine/mutable/"},
+	{"tssp_reader.go", "tssp_file.go", ":Ref#", ":Unref#", ":UnRef#", "FileReader#"},
+	{"mms_tables.go", "ts_mms_tables.go", "engine/shard.go", "ts_storage.go", "iterators.go"},
+	{"sequencer.go", "mms_loader.go", "compact.go", "merge_"},
+	{"engine/wal.go", "engine/shard.go", "engine/mutable/"},
+}
+
+var cwLockClsGroups = []string{"", "", "", "", "query", "query,flush", "query,compact,merge", "query,drop,close", "flush,compact,merge,drop,close",
+	"w1,w2,w3,flush", "w1,w2,w3,query", "seqload,flush,merge", "flush", "compact,merge"}
+
+func cwDrawLockKnobs(r *core.Rand, c *CCase) {
+	c.LockNth = core.Pick(r, []int{0, 0, 0, 0, 0, 0, 0, 1, 1, 1, 2, 2, 2, 3, 3, 3, 5, 5, 8, 8})
+	sites := core.Pick(r, cwLockSiteGroups)
+	cls := core.Pick(r, cwLockClsGroups)
+	if v := os.Getenv("VERIF_C_LOCKNTH"); v != "" {
+		// experiment aid (e.g. VERIF_C_LOCKNTH=0: the search of before the yield points existed)
+		c.LockNth, _ = strconv.Atoi(v)
+	}
+	if c.LockNth > 0 {
+		c.LockSites, c.LockCls = append([]string(nil), sites...), cls
+	}
+	if mo := r.Uint64(); r.Bool(0.5) {
+		c.MapOrder = mo % 1000
+	}
 }
 
 // genReload: a swarm-style shape around the asynchronous sequencer reload — few
@@ -453,6 +501,7 @@ func cwClone(c CCase) CCase {
 		n.Ops[i] = op
 	}
 	n.Sched = append([]string(nil), c.Sched...)
+	n.LockSites = append([]string(nil), c.LockSites...)
 	return n
 }
 
@@ -468,7 +517,7 @@ var (
 
 func cwCaseKey(c CCase) string {
 	var parts []string
-	parts = append(parts, fmt.Sprintf("%+v|%d|%d|%d|%v|%d|%s|%d|%d", c.Knobs, c.NMst, c.NSeries, c.SchedSeed, c.PCT, c.PCTDepth, c.ReadGate, c.ReadNth, c.MaxSteps) + fmt.Sprint(c.LazyFiles, c.Repeat, c.NoGate))
+	parts = append(parts, fmt.Sprintf("%+v|%d|%d|%d|%v|%d|%s|%d|%d", c.Knobs, c.NMst, c.NSeries, c.SchedSeed, c.PCT, c.PCTDepth, c.ReadGate, c.ReadNth, c.MaxSteps) + fmt.Sprint(c.LazyFiles, c.Repeat, c.NoGate) + fmt.Sprint("|", c.LockNth, c.LockSites, c.LockCls, c.MapOrder))
 	for _, op := range c.Ops {
 		parts = append(parts, cwOpDigest(op))
 	}
@@ -537,6 +586,34 @@ func (worldC) Simplify(c CCase) []CCase {
 		n := cwClone(c)
 		n.PCT = false
 		add(n)
+	}
+	if c.MapOrder != 0 {
+		n := cwClone(c)
+		n.MapOrder = 0
+		add(n)
+	}
+	if c.LockNth > 0 {
+		// fewer lock-level yield points: none at all, then fewer classes / sites
+		n := cwClone(c)
+		n.LockNth, n.LockSites, n.LockCls = 0, nil, ""
+		add(n)
+		if c.LockCls != "" {
+			cls := strings.Split(c.LockCls, ",")
+			for i := range cls {
+				if len(cls) > 1 {
+					n := cwClone(c)
+					n.LockCls = strings.Join(append(append([]string(nil), cls[:i]...), cls[i+1:]...), ",")
+					add(n)
+				}
+			}
+		}
+		for i := range c.LockSites {
+			if len(c.LockSites) > 1 {
+				n := cwClone(c)
+				n.LockSites = append(append([]string(nil), c.LockSites[:i]...), c.LockSites[i+1:]...)
+				add(n)
+			}
+		}
 	}
 	if c.Knobs.Partitions > 1 {
 		n := cwClone(c)
